@@ -122,9 +122,28 @@ theorem valueOutput_refused {st : St} {p : Port} (v : Bytes) (hp : st.ports[1]? 
     rw [h1] at hq'; cases hq'; rfl
   rw [hq, bind_ok, this]
   simp only
-  rcases hr with h | ⟨h1, h2⟩
-  · rw [h]; rfl
-  · rw [h1]; simp [h2]
+  split
+  · rfl
+  · rcases hr with h | ⟨h1, h2⟩
+    · rw [h]; rfl
+    · rw [h1]; simp [h2]
+
+/-- `put` with the reading end of a pipe as port 1 (`put x >&0` in `a | form`)
+raises as well: its channel is closed by the writing side, nothing else may
+send to it. -/
+theorem valueOutput_readEnd {st : St} {p : Port} (v : Bytes) (hp : st.ports[1]? = some (some p))
+    (hr : p.pipeReadEnd = true) : valueOutput Cfg.fixed st v = .ok (st, some eNoValueOutput) := by
+  unfold valueOutput
+  have hlen : (1 : Int).toNat < st.ports.length := by
+    have := (List.getElem?_eq_some_iff.mp hp).1
+    simpa using this
+  obtain ⟨q, hq, hq'⟩ := index_ok st.ports 1 (by omega) hlen
+  have : q = some p := by
+    have h1 : st.ports[(1 : Int).toNat]? = some (some p) := by simpa using hp
+    rw [h1] at hq'; cases hq'; rfl
+  rw [hq, bind_ok, this]
+  simp only
+  rw [if_pos (by rw [hr]; rfl)]
 
 /-- Is the source a file (name, file object, map) or `&-`? -/
 def Src.isFileOrClose : Src → Bool
